@@ -99,3 +99,15 @@ Example C01_nonvacuous :
   | None => False
   end.
 Proof. vm_compute. repeat split; reflexivity. Qed.
+
+(* the reported variance is the error variance as a quadratic form in the returned weights:
+   C00 - 2 w.r + w.(A w)  (holds because A w = r; a variance computed from weights that do not
+   solve the system would break this identity) *)
+Theorem C01_variance_quadratic_form : forall k o v, krige k = Some o -> (v < k_nvar k)%nat ->
+  nth v (o_var o) 0 ==
+  get (k_c00 k) v v
+  - (2#1) * fdot (nred k) (fun a => get (o_wgt o) a v) (fun a => get (o_rhs o) a v)
+  + fdot (nred k) (fun a => get (o_wgt o) a v)
+         (fmv (nred k) (get (o_lhs o)) (fun a => get (o_wgt o) a v)).
+Proof. exact krige_var_quadratic. Qed.
+Print Assumptions C01_variance_quadratic_form.
